@@ -65,12 +65,6 @@ Proof.
 Qed.
 
 (* ---- the family exp(ikx) *)
-Lemma expi_shift : forall k x h, expi k (x + h) = Cmult (expi k h) (expi k x).
-Proof.
-  intros. unfold expi, Cmult. cbn [fst snd]. replace (k * (x + h)) with (k * h + k * x) by ring.
-  rewrite cos_plus, sin_plus. f_equal; ring.
-Qed.
-
 Lemma trig_2piZ : forall j : Z, cos (2 * PI * IZR j) = 1 /\ sin (2 * PI * IZR j) = 0.
 Proof.
   assert (N : forall n : nat, cos (2 * PI * INR n) = 1 /\ sin (2 * PI * INR n) = 0).
